@@ -5,15 +5,22 @@
    specification cannot interpret (arbitrary needles, arbitrary valid regular expressions). *)
 EXTENDS TraceCommon, FiniteSets
 
-VARIABLES kind, nq, res, cur, q
-fam == <<kind, nq, res, cur, q>>
+VARIABLES kind, nq, res, cur, q, okc
+fam == <<kind, nq, res, cur, q, okc>>
 vars == <<tcvars, fam>>
 
-Init == TCInit /\ kind = "" /\ nq = 0 /\ res = <<>> /\ cur = {} /\ q = 0
+\* assumption of the family (as Pipeline!UnambiguousText): the text "| drop a != x" denotes a drop with a value matcher,
+\* so no query of a case means "drop a" followed by a negative line filter
+UnambiguousQ(st) == \A k \in 1..(Len(st) - 1) :
+                      st[k].t \in {"drop", "keep"} /\ (IF Has(st[k], "matchers") THEN st[k].matchers = <<>> ELSE TRUE)
+                        => ~(st[k + 1].t = "line" /\ st[k + 1].op \in {"neq", "nre"})
+Init == TCInit /\ kind = "" /\ nq = 0 /\ res = <<>> /\ cur = {} /\ q = 0 /\ okc = TRUE
 Start == Begin /\ kind' = Trace[l].in.fam /\ nq' = Len(Trace[l].in.queries) /\ res' = <<>> /\ cur' = {} /\ q' = 0
+         /\ okc' = \A k \in DOMAIN Trace[l].in.queries : UnambiguousQ(Trace[l].in.queries[k])
+BadCase == RejectEnv /\ Ev.ev = "Run" /\ ~okc /\ UNCHANGED fam
 
-EvRun == IsEv("Run") /\ Ev.q = Len(res) + 1 /\ Accept /\ q' = Ev.q /\ cur' = {} /\ UNCHANGED <<kind, nq, res>>
-EvEntry == IsEv("Entry") /\ Accept /\ cur' = cur \cup {<<Ev.ts, Ev.line>>} /\ UNCHANGED <<kind, nq, res, q>>
+EvRun == IsEv("Run") /\ okc /\ Ev.q = Len(res) + 1 /\ Accept /\ q' = Ev.q /\ cur' = {} /\ UNCHANGED <<kind, nq, res, okc>>
+EvEntry == IsEv("Entry") /\ Accept /\ cur' = cur \cup {<<Ev.ts, Ev.line>>} /\ UNCHANGED <<kind, nq, res, q, okc>>
 EvStorage == IsEv("StorageSelect") /\ Accept /\ UNCHANGED fam
 
 R == Append(res, cur)      \* results including the query that is returning now
@@ -28,12 +35,12 @@ RelationsP == /\ R[1] = R[3] \cap R[4]                                  \* a and
               /\ R[3] \subseteq R[5] /\ R[4] \subseteq R[5]
 ReturnOk == Ev.outcome = "ok"
             /\ (Len(res) + 1 = nq => IF kind = "fg" THEN RelationsFG ELSE RelationsP)
-EvReturn == IsEv("Return") /\ ReturnOk /\ Accept /\ res' = R /\ cur' = {} /\ UNCHANGED <<kind, nq, q>>
+EvReturn == IsEv("Return") /\ ReturnOk /\ Accept /\ res' = R /\ cur' = {} /\ UNCHANGED <<kind, nq, q, okc>>
 
 Explained == \/ Ev.ev \in {"Entry", "StorageSelect"}
              \/ Ev.ev = "Run" /\ Ev.q = Len(res) + 1
              \/ Ev.ev = "Return" /\ ReturnOk
-Bad  == Reject /\ ~Explained /\ UNCHANGED fam
-Next == Start \/ EvRun \/ EvEntry \/ EvStorage \/ EvReturn \/ Bad \/ (Skipped /\ UNCHANGED fam) \/ (Finish /\ UNCHANGED fam)
+Bad  == Reject /\ ~(Ev.ev = "Run" /\ ~okc) /\ ~Explained /\ UNCHANGED fam
+Next == Start \/ BadCase \/ EvRun \/ EvEntry \/ EvStorage \/ EvReturn \/ Bad \/ (Skipped /\ UNCHANGED fam) \/ (Finish /\ UNCHANGED fam)
 TraceSpec == Init /\ [][Next]_vars
 =============================================================================
